@@ -5,7 +5,9 @@ import (
 	"crypto"
 	"crypto/tls"
 	"crypto/x509"
+	"encoding/json"
 	"fmt"
+	"io"
 	"net/http"
 	"net/http/httptest"
 	"runtime/debug"
@@ -24,6 +26,7 @@ import (
 	"github.com/smallstep/certificates/authority/admin"
 	adminAPI "github.com/smallstep/certificates/authority/admin/api"
 	"github.com/smallstep/certificates/db"
+	"github.com/smallstep/certificates/logging"
 	"github.com/smallstep/certificates/scep"
 	scepAPI "github.com/smallstep/certificates/scep/api"
 	"github.com/smallstep/nosql"
@@ -37,6 +40,11 @@ type Server struct {
 	Base    context.Context
 	ACMEDB  acme.DB
 }
+
+// WithLogger makes NewServer wrap the routers in the request logger the way ca.Init does when the
+// configuration has a "logger" section (output discarded). The logger reads STEP_LOGGER_LOG_REAL_IP
+// when it is built. (ca.Init's request-id middleware is an internal package and is not replicated.)
+var WithLogger = false
 
 // NewServer wires api, acme, admin and scep routers exactly like ca.Init.
 func (c *CA) NewServer() (*Server, error) {
@@ -85,6 +93,14 @@ func (c *CA) NewServer() (*Server, error) {
 		ctx = acme.NewContext(ctx, s.ACMEDB, acme.NewClient(), acmeLinker, nil)
 	}
 	s.Handler, s.Base = mux, ctx
+	if WithLogger {
+		logger, err := logging.New("ca", json.RawMessage(`{"format":"json"}`))
+		if err != nil {
+			return nil, err
+		}
+		logger.Logger.SetOutput(io.Discard)
+		s.Handler = logger.Middleware(mux)
+	}
 	return s, nil
 }
 
